@@ -267,6 +267,26 @@ class Repo:
             raise AnchorVanished(f"function {qual} not found")
         return f
 
+    def func_by_role(self, qual: str, role: str, pred) -> Func:
+        """The function known as `qual`; if that name no longer exists (a private function was renamed or moved inside
+        its module/class), the unique function of the same module / class that satisfies pred (its role).  Raises
+        AnchorVanished when zero or several candidates remain: the role cannot be located, nothing is decided."""
+        f = self.funcs.get(qual)
+        if f is not None:
+            return f
+        scope = qual.rsplit(".", 1)[0]
+        cands = [g for q, g in self.funcs.items() if q.rsplit(".", 1)[0] == scope and g.parent is None]
+        good = []
+        for g in cands:
+            try:
+                if pred(g):
+                    good.append(g)
+            except Exception:  # noqa: BLE001
+                continue
+        if len(good) == 1:
+            return good[0]
+        raise AnchorVanished(f"function {qual} not found and its role ({role}) matches {len(good)} functions of {scope}")
+
     def cls(self, qual: str) -> Cls:
         c = self.classes.get(qual)
         if c is None:
